@@ -46,7 +46,8 @@ F15_KEY = 'v1-validator-outlives-lifetime-and-still-decides'
 def gate_cases(fe):
     verdicts = V2_ALL if fe == 'v2' else V1_ALL
     pkts = [{'params': False, 'sig': False, 'digest_ok': True, 'sig_valid': True}]
-    for params, sig in ((True, False), (True, True), (False, True)):
+    # 'empty' = ApplicationParameters present with zero length (24 00): still a parameterised Interest
+    for params, sig in ((True, False), ('empty', False), (True, True), ('empty', True), (False, True)):
         for digest_ok in (True, False):
             for sig_valid in ((True, False) if (sig and params) else ((False,) if sig else (True,))):
                 pkts.append({'params': params, 'sig': sig, 'digest_ok': digest_ok, 'sig_valid': sig_valid})
@@ -112,10 +113,11 @@ def build_interest(pkt):
     par = enc.InterestParam(nonce=77, lifetime=4000)
     if not pkt['params'] and not pkt['sig']:
         return bytes(enc.make_interest(name, par))
+    payload = b'' if pkt['params'] == 'empty' else b'param'
     if pkt['params'] and not pkt['sig']:
-        w = bytes(enc.make_interest(name, par, b'param'))
+        w = bytes(enc.make_interest(name, par, payload))
     elif pkt['params'] and pkt['sig']:
-        w = bytes(enc.make_interest(name, par, b'param', signer=Signer()))
+        w = bytes(enc.make_interest(name, par, payload, signer=Signer()))
         if not pkt['sig_valid']:
             _, _, _, sig = enc.parse_interest(w)
             w = _fix_digest(enc, _flip(w, bytes(sig.signature_value_buf)))
